@@ -26,7 +26,7 @@ import re
 import xml.etree.ElementTree as ET
 import numpy as np
 
-from .. import runner, netgen, xmlout, netlevel
+from .. import runner, netgen, xmlout, netlevel, lsq
 from ..runner import Check, tier_n
 
 GNS = "{http://www.gnu.org/software/gama/gama-local}"
@@ -866,7 +866,8 @@ def run_chain(ck, case):
             ge = xmlout.run_gama_local(texts[k], ck.tmp, name + "e", args=case["args"], outputs=("text", "export"))
             ge.files.pop("text", None)
         # only the exclusion events are used; the (large) `adjust` events are dropped at once
-        g.trace = [e for e in g.trace if e.get("kind") in ("rm_obs_abs_term", "rm_point")]
+        adj_ev = [e for e in g.trace if e.get("kind") == "adjust"]
+        g.trace = [e for e in g.trace if e.get("kind") in ("rm_obs_abs_term", "rm_point")] + adj_ev[-1:]
         g.files.pop("xml", None)
         runs.append(g)
         exp_runs.append(ge)
@@ -1110,7 +1111,30 @@ def check_chain(ck, case, res, seed, tier):
         sfx_txt = " (approx. replaced by observed coordinates)" if overridden else (
             " (angles exported with 4 decimals of an arc second)" if sexa else (" (stale dh reductions)" if stale else ""))
         seen_c = set()
-        for key, msg, okey in netlevel.compare_physical(A, B):
+        if it_k == g1.xml.get("iterations") and it_k < MAX_ITER:
+            cmp_ = netlevel.compare_physical(A, B)
+        else:
+            # run k iterated (or ran into the iteration limit), the re-adjustment starts from its adjusted coordinates: the two
+            # stopped at different linearisation points and agree to what gama's stopping rule leaves open
+            # (first-order bound from the recorded system of run k + what Gauss-Newton neglects, which grows with
+            # the residuals; see netlevel.linearisation_bound*)
+            ck.count("adjustment pairs with different iteration counts (linearisation-criterion tolerances)")
+            evs_k = netlevel.adjust_events(g)
+            lin_mm = 0.0
+            if evs_k:
+                r_k = lsq.Reference(netlevel.event_problem(evs_k[-1]))
+                coords_k = [j + 1 for j, u in enumerate(evs_k[-1]["unknowns"]) if u["type"] in ("X", "Y", "Z")]
+                if r_k.ok and r_k.T is not None:
+                    lin_mm = netlevel.linearisation_bound(r_k, coords_k) + netlevel.linearisation_bound_residual_term(
+                        r_k, coords_k, evs_k[-1]["x"], netlevel.min_sight(net))
+            tol_m = max(1e-6, 2e-3 * lin_mm)
+            if os.environ.get("VERIF_DEBUG"):
+                print("DEBUG C13 pair", k, "it_k", it_k, "g1 it", g1.xml.get("iterations"), "events", len(evs_k), "lin_mm", lin_mm, "dmin", netlevel.min_sight(net))
+            ck.ratio("adjustment pairs: coordinate tolerance between linearisation points [m] / 1e-6", tol_m, 1e-6)
+            dmin_mm = max(netlevel.min_sight(net), 1.0) * 1000.0
+            cmp_ = netlevel.compare_physical(A, B, tol_m=tol_m, rel=max(netlevel.rel_between_linearisation_points(net), 2e-3 * lin_mm / 1e-3 * 1e-4),
+                                             res_tol=max(1e-2, tol_m * 1e3 * max(1.0, 636620.0 / dmin_mm)))
+        for key, msg, okey in cmp_:
             if key in seen_c:
                 continue
             seen_c.add(key)
